@@ -237,7 +237,7 @@ static void gcm_pre_scan(void)
 
 static void gcm_sweep(void)
 {
-	static const int aad_quick[] = { 0, 1, 15, 16, 17, 20, 32, 48, 65 };
+	static const int aad_quick[] = { 0, 1, 15, 16, 17, 20, 32, 48, 65, 128, 255, 513 };   /* incl. the 8-block and 32-block AAD loops */
 	static int aad_thor[80]; int n_aad_thor = 0;
 	for (int a = 0; a <= 33; a++) aad_thor[n_aad_thor++] = a;
 	{ int ex[] = { 47, 48, 49, 63, 64, 65, 127, 128, 129, 255, 256, 257, 1023, 1024, 1025 }; for (unsigned i = 0; i < sizeof ex / sizeof *ex; i++) aad_thor[n_aad_thor++] = ex[i]; }
